@@ -8,8 +8,9 @@ Conventions
 import json, os, re, subprocess, sys, time, shutil, hashlib
 
 VERIF = os.path.dirname(os.path.dirname(os.path.abspath(__file__)))
-SPEC = os.path.join(VERIF, "spec")
-HARNESS = os.path.join(VERIF, "harness")
+# (development only: a scratch copy of the specs / harness can be tried without touching the committed ones)
+SPEC = os.environ.get("VERIF_SPEC_DIR", os.path.join(VERIF, "spec"))
+HARNESS = os.environ.get("VERIF_HARNESS_DIR", os.path.join(VERIF, "harness"))
 EVID = os.path.join(VERIF, "evidence")
 WORK = os.path.join(VERIF, "work")          # scratch (git-ignored), never /tmp
 VH = os.path.join(HARNESS, "target", "verif", "vh")
